@@ -13,7 +13,7 @@ RULE = ('Hypothesis histories of three shapes: (1) one data block - sequential (
         'key set unchanged, visible to later reads; reset = default value on the same extent; +1 offset unless zero-mode; '
         'routing single => any id, multi => exactly registered ids, registration outside 0..247 refused. get/set are only '
         'issued for ranges the model accepts (callers validate first). Non-trivial: an operation whose range touches a '
-        'block boundary or a read overlapping an earlier write; distinct by SHA-1.')
+        'block boundary or a read overlapping an earlier write; distinct by SHA-1. Sparse key sets are made of runs with shuffled insertion order; multi-unit contexts may be created without a dictionary; the list returned by slaves() and the list a block was built from belong to the caller (mutating them must change nothing).')
 ASSUMPTIONS = ['deleting an unregistered id is not specified by the property and is not judged',
                'the initial dict given to a multi-unit context constructor is taken as is (only __setitem__ registration is judged)']
 BUDGET = {'quick': 6000, 'thorough': 20000}
